@@ -73,12 +73,14 @@ c16::result c16::eval_b(std::string const &fn, char const k, params const &ps, s
   if (fn == "seqiter" && np == 1)
   {
     ulong const R = ps[0];
-    if (!sq || R >= 8) return bad;
+    if (!sq || R >= 16) return bad;
     return with_seq(k, v, [&](auto &c) {
       seq log;
+      // R < 8: the answer depends on the element; R >= 8: on the element and on the number of calls so far
       alg::sequence_iteration(c, [&log, R](int const e) {
+        int const n{R >= 8 ? static_cast<int>(log.size()) : 0};
         log.push_back(e);
-        return bit(R, e) ? alg::update_action::remove : alg::update_action::keep;
+        return bit(R % 8, (e + n) % 3) ? alg::update_action::remove : alg::update_action::keep;
       });
       return ds(c) + "|" + ds(log);
     });
